@@ -424,7 +424,10 @@ func TestSets(t *testing.T) {
 		if rc.Kind == "SortedSliceSet" {
 			k = kSorted
 		}
-		if rc.Steps > 0 {
+		if rc.Kind == "" && rc.Steps == 0 && len(rc.Ops) == 0 {
+			// a case of the constructor / NaN / nil-receiver block
+			setExtras(r)
+		} else if rc.Steps > 0 {
 			runBig(r, bigCase{Kind: rc.Kind, N: rc.N, Steps: rc.Steps, Seed: rc.Seed}, &q)
 		} else {
 			runSetSeq(r, k, rc.Init, rc.Ops, &q)
@@ -487,6 +490,14 @@ func TestSets(t *testing.T) {
 		r.Sample(map[string]any{"large_set_walk": "24 steps over 1..N, N in 40/300/1100/5000: bulk Add/Delete of runs of 3..N values, Clear, Clone-and-continue, single Add/Delete; Len and Has probes after every step, Values/Range/Equal every 4th step on both clone partners"})
 	}
 
+	setExtras(r)
+	if r.Finish() > 0 {
+		t.Fail()
+	}
+}
+
+// setExtras: constructors over strings, NaN members, nil receivers (replayed as a whole: seconds).
+func setExtras(r *mon.Run) {
 	// constructor on every permutation-with-duplicates, string element type
 	var q int64
 	words := []string{"", "a", "b", "ab", "B"}
@@ -604,9 +615,6 @@ func TestSets(t *testing.T) {
 		if !ok {
 			r.Violation("nil:"+name, "documented nil-receiver behaviour violated: "+name, map[string]any{"nil": name})
 		}
-	}
-	if r.Finish() > 0 {
-		t.Fail()
 	}
 }
 
